@@ -651,7 +651,7 @@ pub fn run(rep: &mut Report, tier: &str, seed: u64, shard: (u32, u32), replay: O
             rep.distinct_case(&hex(b));
         }
     };
-    if shard.0 == 0 {
+    if shard.0 == 0 && tier != "miri" {
         // systematic sweeps: every type x every value of each 8/16-bit header field, every flag bit pattern
         for t in ALL_TYPES {
             let base = rand_msg(&mut rng, t);
@@ -778,7 +778,7 @@ pub fn run(rep: &mut Report, tier: &str, seed: u64, shard: (u32, u32), replay: O
             }
         }
     }
-    let n: u64 = if tier == "thorough" { 6_000_000 } else { 150_000 };
+    let n: u64 = if tier == "miri" { 400 } else if tier == "thorough" { 6_000_000 } else { 150_000 };
     let budget = Budget::new(n, if tier == "thorough" { 600.0 } else { 25.0 });
     let mut i = 0u64;
     while budget.left(i) {
